@@ -481,7 +481,7 @@ func c07Run(e *Env) {
 	e.Stats.Rule = "case = coinswap parameters (fee on/off, pool-creation fee+tax on/off, whitelist subsets) + a history of user messages of the five types (swap as sell and buy order, add, remove, convert coin, convert ERC-20 on a module-owned and an external pair with real ERC-20 contracts) with independently chosen payer, recipient (payer itself / another user / a pool reserve / the erc20 module / any module account / the zero address), amounts aimed at the payer's balance (fraction, exactly, one beyond, zero) and at the quoted bounds, and a presentation for EVERY address field (bech32 lower/upper, hex 0x/bare/EIP-55/0X-upper, 11 malformed spellings, forms of the other family); per message: signers derived by the real codec (GetMsgV1Signers), execution by the real message server through MsgServiceRouter on a branch written only on success, complete ledger diff of 24+ tracked accounts x 8 denominations + 2 pair denominations + 2 ERC-20 contracts, digest of all other balances; non-trivial = at least one accepted message that debited someone; distinct by hash of the accepted (kind, payer, recipient, presentations) sequence"
 	w := c07NewWorld()
 	e.ShardSize = 4
-	nCases := e.Scale(36, 700)
+	nCases := e.Scale(72, 900)
 	if e.Tier == "search" {
 		nCases = 90
 	}
@@ -524,7 +524,7 @@ func c07Run(e *Env) {
 			}
 		}
 		now := new(big.Int).Add(TimeNs(GenesisTime), big.NewInt(e.Rng.Int63n(1_000_000_000)))
-		nOps := e.Scale(16, 30)
+		nOps := e.Scale(18, 30)
 		if e.Replay != nil {
 			nOps = len(kase.Ops)
 		}
